@@ -50,7 +50,9 @@ type loopInfo struct {
 	frameComps []string
 }
 
+
 type FnCtx struct {
+	lateDefers []*ssa.Defer // defers registered outside the entry block (run at the exits their block dominates)
 	sentinels  []Term
 	P          *Prog
 	fn         *ssa.Function
@@ -672,24 +674,10 @@ func (fx *FnCtx) generate() {
 			}
 			if d, ok := in.(*ssa.Defer); ok {
 				if b.Index != 0 {
-					// a conditionally registered defer is supported only when its callee has no visible
-					// effect (no modifies): it is then skipped at rundefers
-					dfc, _, _ := fx.calleeContract(&d.Call)
-					if dfc == nil || dfc.ModAll || len(dfc.Modifies) > 0 {
-						fx.errf("outside subset: defer outside entry block with a callee that has effects (or no contract) in %s", fx.key)
-					} else {
-						// skipping the call also skips its obligations: only allowed when there are none
-						obl := len(dfc.Requires) > 0
-						for _, cs := range fx.fc.Calls {
-							if cs.Callee == dfc.Key {
-								obl = true
-							}
-						}
-						if obl {
-							fx.errf("outside subset: conditionally deferred call of %s in %s carries obligations (requires / call clause) that cannot be checked at function exit", dfc.Key, fx.key)
-						}
-					}
-					fx.notes["deferred call "+d.Call.String()+" registered conditionally: treated as effect-free at function exit (its contract has no modifies)"] = true
+					// a defer registered outside the entry block runs at exactly those function exits that its
+					// block dominates (checked where the defers are run); registration inside a loop, or an exit
+					// that is reachable from the registration without being dominated by it, is outside the subset
+					fx.lateDefers = append(fx.lateDefers, d)
 					continue
 				}
 				fx.defers = append(fx.defers, d)
